@@ -81,6 +81,7 @@ pub enum DiagnosticInfoMessage {
     MultipleIndexSignaturesNotSupported,
     AnyhowError(String),
     TypeInstantiationTooDeep,
+    InterfaceExtendsItself,
     CannotResolveKey(String),
     CannotNotFindSomethingOfOtherFile(String),
     EnumMemberNoInit,
@@ -305,6 +306,9 @@ impl DiagnosticInfoMessage {
             }
             DiagnosticInfoMessage::AnyhowError(err) => {
                 format!("Internal Error: {err}")
+            }
+            DiagnosticInfoMessage::InterfaceExtendsItself => {
+                "An interface cannot extend itself, directly or through other declarations".to_string()
             }
             DiagnosticInfoMessage::TypeInstantiationTooDeep => {
                 "Type instantiation is excessively deep and possibly infinite".to_string()
